@@ -39,9 +39,9 @@ def cases(tier, seed):
     k = 0
     for i in range(40 if q else 500):
         out.append({'seed': seed, 'idx': k, 'hashseed': k % 5, 'family': 'A', 'n': 3 if q else 4}); k += 1
-    for i in range(32 if q else 300):
+    for i in range(32 if q else 200):
         out.append({'seed': seed, 'idx': k, 'hashseed': k % 5, 'family': 'B', 'n': 2, 'maxjumps': 350 if q else 900}); k += 1
-    for i in range(32 if q else 300):
+    for i in range(32 if q else 200):
         out.append({'seed': seed, 'idx': k, 'hashseed': k % 5, 'family': 'C', 'n': 2, 'maxjumps': 700 if q else 1300,
                     'p2d': 0.85 if q else 0.6}); k += 1
     return out
